@@ -784,4 +784,173 @@ theorem goDecode_eq_setBytes (h : C.OK) (sub : Bool) (buf : List UInt8)
 
 end Codec
 
+/-! ## the encoders -/
+
+theorem eq_putBE_of_beToNat {l : List UInt8} {n fb : Nat} (hl : l.length = fb) (hb : beToNat l = n) : l = putBE fb n := by
+  rw [← hb, ← hl, putBE_beToNat]
+
+/-- OR-ing a flag into the first byte of the big-endian bytes of a value that leaves the flag bits free -/
+theorem putBE_flag (fb v S maskNat : Nat) (mask : UInt8) (hfb : 1 ≤ fb) (hv : v < 256 ^ (fb - 1) * S) (hS : S ≤ 256)
+    (hor : ∀ b : UInt8, b.toNat < S → (b ||| mask).toNat = b.toNat + maskNat) :
+    (putBE fb v).set 0 ((putBE fb v).getD 0 0 ||| mask) = putBE fb (maskNat * 256 ^ (fb - 1) + v) := by
+  have hv' : v < 256 ^ fb := by
+    obtain ⟨m, rfl⟩ : ∃ m, fb = m + 1 := ⟨fb - 1, by omega⟩
+    simp only [Nat.add_sub_cancel] at hv
+    have hM : 0 < 256 ^ m := by positivity
+    rw [pow_succ]; nlinarith
+  have hlen : (putBE fb v).length = fb := putBE_length fb v
+  have hval : beToNat (putBE fb v) = v := by rw [beToNat_putBE, Nat.mod_eq_of_lt hv']
+  cases hp : putBE fb v with
+  | nil => rw [hp] at hlen; simp at hlen; omega
+  | cons b t =>
+    rw [hp] at hlen hval
+    have ht : t.length = fb - 1 := by simp at hlen; omega
+    rw [beToNat_cons, ht] at hval
+    have hb : b.toNat < S := by
+      have : b.toNat * 256 ^ (fb - 1) < S * 256 ^ (fb - 1) := by rw [Nat.mul_comm S]; omega
+      exact Nat.lt_of_mul_lt_mul_right this
+    simp only [List.set_cons_zero, List.getD_cons_zero]
+    apply eq_putBE_of_beToNat (by simp; omega)
+    rw [beToNat_cons, ht, hor b hb, ← hval]
+    ring
+
+theorem goPutAt_zeros (fb : Nat) (pe : List UInt8) (h : pe.length = fb) : goPutAt (List.replicate fb 0) 0 pe = pe := by
+  simp [goPutAt, h]
+
+theorem buildFrame1 (C : Codec α) (fl : Flag) (v : Nat) (ys : List Nat) :
+    C.buildFrame fl [v] ys = putBE C.fb (C.L.code fl * C.shift + v) ++ writeComps C.fb ys := by
+  simp [Codec.buildFrame, writeComps]
+
+theorem byte_or2 : ∀ b : UInt8, b.toNat < 64 →
+    (b ||| 64).toNat = b.toNat + 64 ∧ (b ||| 128).toNat = b.toNat + 128 ∧ (b ||| 192).toNat = b.toNat + 192 := by
+  apply byte_forall; decide +kernel
+
+theorem byte_or3 : ∀ b : UInt8, b.toNat < 32 →
+    (b ||| 64).toNat = b.toNat + 64 ∧ (b ||| 128).toNat = b.toNat + 128 ∧ (b ||| 160).toNat = b.toNat + 160 ∧
+    (b ||| 192).toNat = b.toNat + 192 := by
+  apply byte_forall; decide +kernel
+
+/-- the first byte of an all-zero array set to a flag -/
+theorem zeros_flag (fb S maskNat : Nat) (mask : UInt8) (hfb : 1 ≤ fb) (hS : 1 ≤ S) (hS' : S ≤ 256)
+    (hor : ∀ b : UInt8, b.toNat < S → (b ||| mask).toNat = b.toNat + maskNat) :
+    (List.replicate fb (0 : UInt8)).set 0 mask = putBE fb (maskNat * 256 ^ (fb - 1) + 0) := by
+  have := putBE_flag fb 0 S maskNat mask hfb (by positivity) hS' hor
+  rw [putBE_zero] at this
+  rw [← this]
+  obtain ⟨m, rfl⟩ : ∃ m, fb = m + 1 := ⟨fb - 1, by omega⟩
+  simp [List.replicate_succ]
+
+theorem goBytes2_eq (P : Prims α) (C : Codec α) (g : α → α) (R : Rel P C g) (h : C.OK) (hL : C.L = .two)
+    (x y : α) (hx : C.Valid x) : goBytes2 C.fb P x y = C.encCompressed (C.mkPt x y) := by
+  have hc := R.c1
+  have hfb := R.fb_pos
+  have hk : C.L.k ≤ 8 := by rw [hL]; decide
+  have hsh := shift_split C hfb hk
+  rw [hL, show 8 - Layout.two.k = 6 from rfl, show (2 : Nat) ^ 6 = 64 by norm_num] at hsh
+  by_cases h0 : x = C.zero ∧ y = C.zero
+  · have hz : C.zeros = [0] := by simp [Codec.zeros, hc]
+    simp only [goBytes2, R.isZero, h0, Codec.mkPt, Codec.encCompressed, hz, buildFrame1, writeComps, List.append_nil,
+      and_self, decide_true, Bool.and_self, if_true, hL, Layout.code]
+    rw [hsh, zeros_flag C.fb 64 64 64 hfb (by norm_num) (by norm_num) (fun b hb => (byte_or2 b hb).1)]
+    congr 1; ring
+  · obtain ⟨v, hv, hput⟩ := R.put x hx
+    have hvp : v < C.p := hx.lt v (by simp [hv])
+    have hvs : v < 256 ^ (C.fb - 1) * 64 := by rw [← hsh]; exact lt_of_lt_of_le hvp h.p_le
+    have hiz : (P.isZero x && P.isZero y) = false := by
+      simp only [R.isZero]; by_contra hh; simp at hh; exact h0 hh
+    have hpl : (putBE C.fb v).length = C.fb := putBE_length _ _
+    cases hl : C.lex y
+    · simp only [goBytes2, hiz, Codec.mkPt, h0, if_false, Codec.encCompressed, R.lex, hl, hv, hput, buildFrame1, writeComps,
+        List.append_nil, goPutAt_zeros _ _ hpl, hL, Layout.code, Bool.false_eq_true]
+      rw [hsh, putBE_flag C.fb v 64 128 128 hfb hvs (by norm_num) (fun b hb => (byte_or2 b hb).2.1)]
+      congr 1; ring
+    · simp only [goBytes2, hiz, Codec.mkPt, h0, if_false, Codec.encCompressed, R.lex, hl, hv, hput, buildFrame1, writeComps,
+        List.append_nil, goPutAt_zeros _ _ hpl, hL, Layout.code, if_true, Bool.false_eq_true]
+      rw [hsh, putBE_flag C.fb v 64 192 192 hfb hvs (by norm_num) (fun b hb => (byte_or2 b hb).2.2)]
+      congr 1; ring
+
+theorem goBytes3_eq (P : Prims α) (C : Codec α) (g : α → α) (R : Rel P C g) (h : C.OK) (hL : C.L = .three)
+    (x y : α) (hx : C.Valid x) : goBytes3 C.fb P x y = C.encCompressed (C.mkPt x y) := by
+  have hc := R.c1
+  have hfb := R.fb_pos
+  have hk : C.L.k ≤ 8 := by rw [hL]; decide
+  have hsh := shift_split C hfb hk
+  rw [hL, show 8 - Layout.three.k = 5 from rfl, show (2 : Nat) ^ 5 = 32 by norm_num] at hsh
+  by_cases h0 : x = C.zero ∧ y = C.zero
+  · have hz : C.zeros = [0] := by simp [Codec.zeros, hc]
+    simp only [goBytes3, R.isZero, h0, Codec.mkPt, Codec.encCompressed, hz, buildFrame1, writeComps, List.append_nil,
+      and_self, decide_true, Bool.and_self, if_true, hL, Layout.code]
+    rw [hsh, zeros_flag C.fb 32 192 192 hfb (by norm_num) (by norm_num) (fun b hb => (byte_or3 b hb).2.2.2)]
+    congr 1; ring
+  · obtain ⟨v, hv, hput⟩ := R.put x hx
+    have hvp : v < C.p := hx.lt v (by simp [hv])
+    have hvs : v < 256 ^ (C.fb - 1) * 32 := by rw [← hsh]; exact lt_of_lt_of_le hvp h.p_le
+    have hiz : (P.isZero x && P.isZero y) = false := by
+      simp only [R.isZero]; by_contra hh; simp at hh; exact h0 hh
+    have hpl : (putBE C.fb v).length = C.fb := putBE_length _ _
+    cases hl : C.lex y
+    · simp only [goBytes3, hiz, Codec.mkPt, h0, if_false, Codec.encCompressed, R.lex, hl, hv, hput, buildFrame1, writeComps,
+        List.append_nil, goPutAt_zeros _ _ hpl, hL, Layout.code, Bool.false_eq_true]
+      rw [hsh, putBE_flag C.fb v 32 128 128 hfb hvs (by norm_num) (fun b hb => (byte_or3 b hb).2.1)]
+      congr 1; ring
+    · simp only [goBytes3, hiz, Codec.mkPt, h0, if_false, Codec.encCompressed, R.lex, hl, hv, hput, buildFrame1, writeComps,
+        List.append_nil, goPutAt_zeros _ _ hpl, hL, Layout.code, if_true, Bool.false_eq_true]
+      rw [hsh, putBE_flag C.fb v 32 160 160 hfb hvs (by norm_num) (fun b hb => (byte_or3 b hb).2.2.1)]
+      congr 1; ring
+
+theorem raw_put (fb : Nat) (px py : List UInt8) (hx : px.length = fb) (hy : py.length = fb) :
+    goPutAt (goPutAt (List.replicate (2 * fb) 0) fb py) 0 px = px ++ py := by
+  simp [goPutAt, hx, hy, two_mul]
+
+theorem set_or_zero (l : List UInt8) : l.set 0 (l.getD 0 0 ||| 0) = l := by
+  cases l <;> simp
+
+theorem replicate_two (fb : Nat) : List.replicate (2 * fb) (0 : UInt8) = List.replicate fb 0 ++ List.replicate fb 0 := by
+  rw [two_mul, List.replicate_append_replicate]
+
+theorem goRawBytes2_eq (P : Prims α) (C : Codec α) (g : α → α) (R : Rel P C g) (hL : C.L = .two)
+    (x y : α) (hx : C.Valid x) (hy : C.Valid y) : goRawBytes2 C.fb P x y = C.encRaw (C.mkPt x y) := by
+  have hc := R.c1
+  by_cases h0 : x = C.zero ∧ y = C.zero
+  · have hz : C.zeros = [0] := by simp [Codec.zeros, hc]
+    simp only [goRawBytes2, R.isZero, h0, Codec.mkPt, Codec.encRaw, hz, buildFrame1, writeComps, List.append_nil,
+      and_self, decide_true, Bool.and_self, if_true, hL, Layout.code, Layout.rawInf, Nat.zero_mul, Nat.add_zero, putBE_zero,
+      replicate_two]
+    have := set_or_zero (List.replicate C.fb 0 ++ List.replicate C.fb 0)
+    cases hh : C.fb with
+    | zero => simp
+    | succ m => simp [List.replicate_succ]
+  · obtain ⟨vx, hvx, hputx⟩ := R.put x hx
+    obtain ⟨vy, hvy, hputy⟩ := R.put y hy
+    have hiz : (P.isZero x && P.isZero y) = false := by
+      simp only [R.isZero]; by_contra hh; simp at hh; exact h0 hh
+    simp only [goRawBytes2, hiz, Codec.mkPt, h0, if_false, Codec.encRaw, hvx, hvy, hputx, hputy, buildFrame1, writeComps,
+      List.append_nil, raw_put _ _ _ (putBE_length _ _) (putBE_length _ _), hL, Layout.code, Nat.zero_mul, Nat.zero_add,
+      set_or_zero, Bool.false_eq_true]
+
+theorem goRawBytes3_eq (P : Prims α) (C : Codec α) (g : α → α) (R : Rel P C g) (hL : C.L = .three)
+    (x y : α) (hx : C.Valid x) (hy : C.Valid y) : goRawBytes3 C.fb P x y = C.encRaw (C.mkPt x y) := by
+  have hc := R.c1
+  have hfb := R.fb_pos
+  have hk : C.L.k ≤ 8 := by rw [hL]; decide
+  have hsh := shift_split C hfb hk
+  rw [hL, show 8 - Layout.three.k = 5 from rfl, show (2 : Nat) ^ 5 = 32 by norm_num] at hsh
+  by_cases h0 : x = C.zero ∧ y = C.zero
+  · have hz : C.zeros = [0] := by simp [Codec.zeros, hc]
+    have hset : (List.replicate C.fb (0 : UInt8) ++ List.replicate C.fb 0).set 0 64
+        = (List.replicate C.fb (0 : UInt8)).set 0 64 ++ List.replicate C.fb 0 := by
+      obtain ⟨m, hm⟩ : ∃ m, C.fb = m + 1 := ⟨C.fb - 1, by omega⟩
+      rw [hm]; simp [List.replicate_succ]
+    simp only [goRawBytes3, R.isZero, h0, Codec.mkPt, Codec.encRaw, hz, buildFrame1, writeComps, List.append_nil,
+      and_self, decide_true, Bool.and_self, if_true, hL, Layout.code, Layout.rawInf, putBE_zero, replicate_two, hset]
+    rw [hsh, zeros_flag C.fb 32 64 64 hfb (by norm_num) (by norm_num) (fun b hb => (byte_or3 b hb).1)]
+    congr 2; ring
+  · obtain ⟨vx, hvx, hputx⟩ := R.put x hx
+    obtain ⟨vy, hvy, hputy⟩ := R.put y hy
+    have hiz : (P.isZero x && P.isZero y) = false := by
+      simp only [R.isZero]; by_contra hh; simp at hh; exact h0 hh
+    simp only [goRawBytes3, hiz, Codec.mkPt, h0, if_false, Codec.encRaw, hvx, hvy, hputx, hputy, buildFrame1, writeComps,
+      List.append_nil, raw_put _ _ _ (putBE_length _ _) (putBE_length _ _), hL, Layout.code, Nat.zero_mul, Nat.zero_add,
+      set_or_zero, Bool.false_eq_true]
+
 end GV.PointCodec
